@@ -21,7 +21,7 @@ use crate::fontgen::var::{avar_table, fvar_table, AxisModel, InstanceModel};
 use crate::fontgen::varext::{gasp_table, hhea_with, name_table_records, or_component_flag, os2_table, post_v3_with, stat_table, vhea_table, vvar_from_hvar, Os2Values, StatValue, StatValueEnc};
 use crate::refmodel::varext::{check_name_table, gasp_ranges, read_vertical, vhea_fields};
 use crate::refmodel::varmodel::{
-    bbox_of, composed_points, composed_points_model, decode_cvar, decode_gvar, eval_cvt, decode_hvar, decode_mvar, eval_glyph, implied_axis_region, metric_fields,
+    bbox_of, composed_points, decode_cvar, decode_gvar, eval_cvt, decode_hvar, decode_mvar, eval_glyph, implied_axis_region, metric_fields,
     axis_region_invalid, read_font, AxisRegion, HvarModel, IvsModel, OutShape, ParsedFont, Region, TupleVar,
 };
 use crate::fontgen::cff::build_otf;
@@ -94,6 +94,45 @@ pub struct CompSpec {
     pub anchor: Option<(u32, u32)>,
     pub force_words: bool,
     pub round: bool,
+    /// refer to a glyph without contours (if the font has one and the composite keeps at least
+    /// one component with points)
+    pub empty: bool,
+    /// 2.14 transform of the component (not on point-matched components)
+    pub transform: Option<TransformSpec>,
+    /// SCALED_COMPONENT_OFFSET; only used with positive diagonal scales, for which every
+    /// reading of that flag gives offset' = (xscale * dx, yscale * dy)
+    pub scaled_offset: bool,
+}
+
+/// Component transforms in quarters (so that transformed integer coordinates are exact multiples
+/// of 1/4 in any binary floating point arithmetic): -8 ..= 7 quarters is the 2.14 range [-2, 2).
+#[derive(Clone, Debug)]
+pub enum TransformSpec {
+    /// WE_HAVE_A_SCALE
+    Scale(i8),
+    /// WE_HAVE_AN_X_AND_Y_SCALE
+    XY(i8, i8),
+    /// WE_HAVE_A_TWO_BY_TWO: xscale, scale01, scale10, yscale
+    Matrix(i8, i8, i8, i8),
+}
+
+impl TransformSpec {
+    fn words(&self) -> Vec<i16> {
+        let w = |q: i8| (q as i16) * 4096;
+        match *self {
+            TransformSpec::Scale(a) => vec![w(a)],
+            TransformSpec::XY(a, d) => vec![w(a), w(d)],
+            TransformSpec::Matrix(a, b, c, d) => vec![w(a), w(b), w(c), w(d)],
+        }
+    }
+    /// a diagonal transform with positive entries
+    fn positive_diagonal(&self) -> bool {
+        match *self {
+            TransformSpec::Scale(a) => a > 0,
+            TransformSpec::XY(a, d) => a > 0 && d > 0,
+            TransformSpec::Matrix(a, b, c, d) => a > 0 && d > 0 && b == 0 && c == 0,
+        }
+    }
 }
 
 #[derive(Clone, Debug)]
@@ -331,8 +370,29 @@ fn comp_spec() -> impl Strategy<Value = CompSpec> {
         proptest::option::weighted(0.12, (any::<u32>(), any::<u32>())),
         any::<bool>(),
         any::<bool>(),
+        (proptest::bool::weighted(0.2), proptest::option::weighted(0.3, transform_spec()), proptest::bool::weighted(0.35)),
     )
-        .prop_map(|(target, dx, dy, anchor, force_words, round)| CompSpec { target, dx, dy, anchor, force_words, round })
+        .prop_map(|(target, dx, dy, anchor, force_words, round, (empty, transform, scaled_offset))| CompSpec { target, dx, dy, anchor, force_words, round, empty, transform, scaled_offset })
+}
+
+fn transform_spec() -> impl Strategy<Value = TransformSpec> {
+    // quarters: mostly positive (1/4 .. 7/4, 4 = identity), sometimes a reflection, -8 = -2.0
+    fn q() -> impl Strategy<Value = i8> {
+        prop_oneof![
+            4 => proptest::sample::select(vec![2i8, 4, 6, 3, 5, 7, 1]),
+            1 => proptest::sample::select(vec![-4i8, -2, -6, -8]),
+        ]
+    }
+    prop_oneof![
+        2 => q().prop_map(TransformSpec::Scale),
+        2 => (q(), q()).prop_map(|(a, d)| TransformSpec::XY(a, d)),
+        1 => (q(), q()).prop_map(|(a, d)| TransformSpec::Matrix(a, 0, 0, d)),
+        // shear / rotation: at least one off-diagonal term
+        4 => (q(), -4i8..=4, -4i8..=4, q(), any::<bool>()).prop_map(|(a, b, c, d, which)| {
+            let (b, c) = if b == 0 && c == 0 { if which { (2, 0) } else { (0, -2) } } else { (b, c) };
+            TransformSpec::Matrix(a, b, c, d)
+        }),
+    ]
 }
 
 fn shape_spec() -> impl Strategy<Value = ShapeSpec> {
@@ -486,7 +546,7 @@ struct GlyphModel {
     /// inclusive end index per contour
     ends: Vec<usize>,
     comps: Vec<ComponentEnc>,
-    /// raw 2.14 transform words per component (fixtures; generated composites have none)
+    /// raw 2.14 transform words per component
     transforms: Vec<Vec<i16>>,
     /// points of a simple glyph / components of a composite
     n_points: usize,
@@ -500,30 +560,56 @@ struct GlyphModel {
     big: bool,
 }
 
-/// The points of a source glyph with its components (offsets or anchor points, no transforms) composed.
-fn flat_points(glyphs: &[GlyphModel], gid: usize, depth: usize) -> Vec<(i32, i32)> {
+/// The points of a source glyph with its components (offsets or anchor points, 2.14 transforms,
+/// scaled offsets of diagonal transforms) composed.
+fn flat_points(glyphs: &[GlyphModel], gid: usize, depth: usize) -> Vec<(f64, f64)> {
     let g = match glyphs.get(gid) {
         Some(g) if depth <= 4 => g,
         _ => return Vec::new(),
     };
     match g.kind {
         Kind::Composite => {
-            let mut acc: Vec<(i32, i32)> = Vec::new();
+            let mut acc: Vec<(f64, f64)> = Vec::new();
             for c in &g.comps {
-                let child = flat_points(glyphs, c.glyph as usize, depth + 1);
+                let m = matrix_of(&c.transform);
+                let child: Vec<(f64, f64)> = flat_points(glyphs, c.glyph as usize, depth + 1).iter().map(|p| apply_matrix(m, *p)).collect();
                 let off = match c.args {
-                    CompArgs::Offset(x, y) => (x as i32, y as i32),
+                    CompArgs::Offset(x, y) if c.scaled_offset => (m.0 * x as f64, m.3 * y as f64),
+                    CompArgs::Offset(x, y) => (x as f64, y as f64),
                     CompArgs::Points(p, q) => match (acc.get(p as usize), child.get(q as usize)) {
                         (Some(a), Some(b)) => (a.0 - b.0, a.1 - b.1),
-                        _ => (0, 0),
+                        _ => (0.0, 0.0),
                     },
                 };
                 acc.extend(child.iter().map(|p| (p.0 + off.0, p.1 + off.1)));
             }
             acc
         }
-        _ => g.coords.iter().map(|p| (p.0 as i32, p.1 as i32)).collect(),
+        _ => g.coords.iter().map(|p| (p.0 as f64, p.1 as f64)).collect(),
     }
+}
+
+/// (a, b, c, d) of x' = a·x + c·y, y' = b·x + d·y from the 2.14 words of a component record
+/// (file order xscale, scale01, scale10, yscale).
+fn matrix_of(words: &[i16]) -> (f64, f64, f64, f64) {
+    let f = |v: i16| v as f64 / 16384.0;
+    match words.len() {
+        1 => (f(words[0]), 0.0, 0.0, f(words[0])),
+        2 => (f(words[0]), 0.0, 0.0, f(words[1])),
+        4 => (f(words[0]), f(words[1]), f(words[2]), f(words[3])),
+        _ => (1.0, 0.0, 0.0, 1.0),
+    }
+}
+
+fn apply_matrix(m: (f64, f64, f64, f64), p: (f64, f64)) -> (f64, f64) {
+    (m.0 * p.0 + m.2 * p.1, m.1 * p.0 + m.3 * p.1)
+}
+
+/// Header box of a source composite: the extremes of its composed points, rounded to the nearest
+/// unit (what a font compiler writes; exact for composites without transforms).
+fn source_box(points: &[(f64, f64)]) -> (i16, i16, i16, i16) {
+    let b = bbox_of(points).expect("composite with points");
+    (b.0.round() as i16, b.1.round() as i16, b.2.round() as i16, b.3.round() as i16)
 }
 
 /// What the oracle knows about a variable font (generated, or decoded from a fixture).
@@ -885,8 +971,10 @@ fn build_ext(case: &Case, ext: Option<&ExtSpec>) -> Built {
             big,
         });
     }
-    // ---- shapes, pass 2: composites of simple glyphs (one level)
+    // ---- shapes, pass 2: composites of simple glyphs (one level); a component may also refer to
+    // a glyph without contours, as long as the composite keeps a component with points
     let simple_ids: Vec<usize> = (0..glyphs.len()).filter(|i| glyphs[*i].kind == Kind::Simple && !glyphs[*i].big).collect();
+    let empty_ids: Vec<usize> = (0..glyphs.len()).filter(|i| glyphs[*i].kind == Kind::Empty).collect();
     for (gi, g) in case.glyphs.iter().enumerate() {
         if let ShapeSpec::Composite(cs) = &g.shape {
             if simple_ids.is_empty() {
@@ -894,30 +982,38 @@ fn build_ext(case: &Case, ext: Option<&ExtSpec>) -> Built {
                 continue;
             }
             let mut comps: Vec<ComponentEnc> = Vec::new();
-            let mut acc: Vec<(i32, i32)> = Vec::new();
-            for c in cs {
+            let mut acc: Vec<(f64, f64)> = Vec::new();
+            for (ci, c) in cs.iter().enumerate() {
+                if c.empty && !empty_ids.is_empty() && !(ci + 1 == cs.len() && acc.is_empty()) {
+                    // a glyph without contours has no points to match and nothing to transform
+                    let target = empty_ids[pick(empty_ids.len(), c.target)];
+                    comps.push(ComponentEnc { glyph: target as u16, args: CompArgs::Offset(c.dx, c.dy), force_words: c.force_words, round_to_grid: c.round, transform: Vec::new(), scaled_offset: false });
+                    continue;
+                }
                 let target = simple_ids[pick(simple_ids.len(), c.target)];
-                let child: Vec<(i32, i32)> = glyphs[target].coords.iter().map(|p| (p.0 as i32, p.1 as i32)).collect();
+                let anchored = c.anchor.is_some() && !acc.is_empty();
+                let tr = c.transform.as_ref().filter(|_| !anchored);
+                let words = tr.map(|t| t.words()).unwrap_or_default();
+                let scaled_offset = c.scaled_offset && tr.map_or(false, |t| t.positive_diagonal());
+                let m = matrix_of(&words);
+                let child: Vec<(f64, f64)> = glyphs[target].coords.iter().map(|p| apply_matrix(m, (p.0 as f64, p.1 as f64))).collect();
                 let (args, off) = match c.anchor {
-                    Some((a, b)) if !acc.is_empty() => {
+                    Some((a, b)) if anchored => {
                         let p = pick(acc.len(), a);
                         let q = pick(child.len(), b);
                         (CompArgs::Points(p as u16, q as u16), (acc[p].0 - child[q].0, acc[p].1 - child[q].1))
                     }
-                    _ => (CompArgs::Offset(c.dx, c.dy), (c.dx as i32, c.dy as i32)),
+                    _ if scaled_offset => (CompArgs::Offset(c.dx, c.dy), (m.0 * c.dx as f64, m.3 * c.dy as f64)),
+                    _ => (CompArgs::Offset(c.dx, c.dy), (c.dx as f64, c.dy as f64)),
                 };
                 acc.extend(child.iter().map(|p| (p.0 + off.0, p.1 + off.1)));
-                comps.push(ComponentEnc { glyph: target as u16, args, force_words: c.force_words, round_to_grid: c.round });
+                comps.push(ComponentEnc { glyph: target as u16, args, force_words: c.force_words, round_to_grid: c.round, transform: words, scaled_offset });
             }
-            let bbox = (
-                acc.iter().map(|p| p.0).min().unwrap() as i16,
-                acc.iter().map(|p| p.1).min().unwrap() as i16,
-                acc.iter().map(|p| p.0).max().unwrap() as i16,
-                acc.iter().map(|p| p.1).max().unwrap() as i16,
-            );
+            let bbox = source_box(&acc);
             let m = &mut glyphs[gi];
             m.n_points = comps.len();
             m.record = glyf_composite(bbox, &comps);
+            m.transforms = comps.iter().map(|c| c.transform.clone()).collect();
             m.comps = comps;
             m.bbox = bbox;
         }
@@ -943,18 +1039,14 @@ fn build_ext(case: &Case, ext: Option<&ExtSpec>) -> Built {
             let (dx, dy) = (cs[0].dy / 2, cs[0].dx / 2);
             let child = flat_points(&glyphs, gj, 0);
             let mut acc = flat_points(&glyphs, gi, 0);
-            acc.extend(child.iter().map(|p| (p.0 + dx as i32, p.1 + dy as i32)));
-            if acc.iter().any(|p| p.0.abs() > 30_000 || p.1.abs() > 30_000) {
+            acc.extend(child.iter().map(|p| (p.0 + dx as f64, p.1 + dy as f64)));
+            if acc.iter().any(|p| p.0.abs() > 30_000.0 || p.1.abs() > 30_000.0) {
                 continue;
             }
             let m = &mut glyphs[gi];
-            m.comps.push(ComponentEnc { glyph: gj as u16, args: CompArgs::Offset(dx, dy), force_words: cs[0].force_words, round_to_grid: false });
-            m.bbox = (
-                acc.iter().map(|p| p.0).min().unwrap() as i16,
-                acc.iter().map(|p| p.1).min().unwrap() as i16,
-                acc.iter().map(|p| p.0).max().unwrap() as i16,
-                acc.iter().map(|p| p.1).max().unwrap() as i16,
-            );
+            m.comps.push(ComponentEnc { glyph: gj as u16, args: CompArgs::Offset(dx, dy), force_words: cs[0].force_words, round_to_grid: false, transform: Vec::new(), scaled_offset: false });
+            m.transforms.push(Vec::new());
+            m.bbox = source_box(&acc);
             m.n_points = m.comps.len();
             m.record = glyf_composite(m.bbox, &m.comps);
             inner.push(gj);
@@ -1463,10 +1555,10 @@ fn check_instance(b: &Model, src: &ParsedFont, src_fields: &[([u8; 4], i32)], ou
                             }
                         }
                     }
-                    let keep = 0x0004u16; // ROUND_XY_TO_GRID
-                    let src_flags = if sc.round_to_grid { keep } else { 0 };
+                    let keep = 0x0004u16 | 0x0800; // ROUND_XY_TO_GRID, SCALED_COMPONENT_OFFSET
+                    let src_flags = if sc.round_to_grid { 0x0004 } else { 0 } | if sc.scaled_offset { 0x0800 } else { 0 };
                     if oc.flags & keep != src_flags {
-                        return Err(fail("component-flags", ctx(&format!("component {} ROUND_XY_TO_GRID changed", i))));
+                        return Err(fail("component-flags", ctx(&format!("component {} ROUND_XY_TO_GRID / SCALED_COMPONENT_OFFSET changed: flags {:#06x}, source had {:#06x} of those", i, oc.flags, src_flags))));
                     }
                 }
             }
@@ -1476,29 +1568,73 @@ fn check_instance(b: &Model, src: &ParsedFont, src_fields: &[([u8; 4], i32)], ou
         }
         evals.push(ev);
     }
-    // composite header bboxes: the box of the composed output points
+    // composite header bboxes: the box of the composed output points. Without transforms the
+    // composition is integer arithmetic and the box must be exact; with 2.14 transforms the
+    // composed points are fractional and each edge may be off by one unit of rounding (plus
+    // COMPOSE_EPS for the transform arithmetic).
     let mut bbox_defect_glyphs: Vec<usize> = Vec::new();
+    let mut transformed_composites: Vec<usize> = Vec::new();
     for (gi, g) in b.glyphs.iter().enumerate() {
-        if g.kind == Kind::Composite && composite_is_plain(&out.glyphs, gi, 0) {
-            let pts = composed_points(&out.glyphs, gi, 0).ok_or_else(|| fail("compose-output", format!("glyph {}: output composite cannot be composed", gi)))?;
-            if let Some(bb) = bbox_of(&pts) {
-                let og = &out.glyphs[gi];
-                let hb = (og.bbox.0 as f64, og.bbox.1 as f64, og.bbox.2 as f64, og.bbox.3 as f64);
-                if bb != hb {
-                    // defect model: point-number arguments taken for x/y offsets when the box of
-                    // an instanced composite is recomputed
-                    let dm = composed_points_model(&out.glyphs, gi, 0, true).and_then(|p| bbox_of(&p));
-                    let f = fail(
-                        if dm == Some(hb) { "bbox-composite-anchor-args-as-offsets" } else { "bbox-composite" },
-                        format!("glyph {} at {:?}: composite header bbox {:?} but its composed points span {:?}; components {:?}", gi, loc, og.bbox, bb, g.comps),
-                    );
-                    if dm == Some(hb) {
-                        agg.deferred.get_or_insert(f);
-                        bbox_defect_glyphs.push(gi);
-                    } else {
-                        return Err(f);
-                    }
-                }
+        if g.kind != Kind::Composite {
+            continue;
+        }
+        let plain = match composite_class(&out.glyphs, gi, 0) {
+            Some(p) => p,
+            None => {
+                agg.composite_box_unchecked += 1;
+                continue;
+            }
+        };
+        if !plain {
+            transformed_composites.push(gi);
+        }
+        let pts = composed_points(&out.glyphs, gi, 0).ok_or_else(|| fail("compose-output", format!("glyph {}: output composite cannot be composed", gi)))?;
+        if let Some(bb) = bbox_of(&pts) {
+            let og = &out.glyphs[gi];
+            let hb = (og.bbox.0 as f64, og.bbox.1 as f64, og.bbox.2 as f64, og.bbox.3 as f64);
+            let tol = if plain { 0.0 } else { 1.0 + COMPOSE_EPS };
+            let ok = (hb.0 - bb.0).abs() <= tol && (hb.1 - bb.1).abs() <= tol && (hb.2 - bb.2).abs() <= tol && (hb.3 - bb.3).abs() <= tol;
+            if ok {
+                agg.composite_box_checked_plain += plain as u32;
+                agg.composite_box_checked_transformed += !plain as u32;
+                continue;
+            }
+            // defect models (attribution only; the verdict above comes from the composed points):
+            // the box is built from child boxes, where
+            //   E: a glyph without contours counts as the degenerate box at the origin,
+            //   T: a component's transform is applied to the child's box instead of its points,
+            //   A: point-number arguments are taken for x/y offsets (the known finding).
+            let model = |e: bool, t: bool, a: bool| defect_box(&out.glyphs, gi, 0, e, t, a).and_then(|p| bbox_of(&p)).map(|r| (r.0.floor(), r.1.floor(), r.2.ceil(), r.3.ceil()));
+            // the smallest set of deviations that reproduces the header box names the failure
+            let sig = if model(false, false, true) == Some(hb) {
+                "bbox-composite-anchor-args-as-offsets"
+            } else if model(false, true, false) == Some(hb) {
+                "bbox-composite-transformed-child-box"
+            } else if model(true, false, false) == Some(hb) {
+                "bbox-composite-empty-component-as-origin-point"
+            } else if [(true, true, false), (false, true, true), (true, false, true), (true, true, true)].iter().any(|d| model(d.0, d.1, d.2) == Some(hb)) {
+                "bbox-composite-child-box-model-several-deviations"
+            } else {
+                "bbox-composite"
+            };
+            let f = fail(
+                sig,
+                format!(
+                    "glyph {} at {:?}: composite header bbox {:?} but its composed points span {:?}{}; components {:?}; component glyphs {:?}",
+                    gi,
+                    loc,
+                    og.bbox,
+                    bb,
+                    if plain { String::new() } else { format!(" (tolerance {} per edge)", tol) },
+                    g.comps,
+                    g.comps.iter().map(|c| b.glyphs.get(c.glyph as usize).map(|t| (t.kind.clone(), if t.coords.len() <= 8 { format!("{:?}", t.coords) } else { format!("{} points", t.coords.len()) }))).collect::<Vec<_>>()
+                ),
+            );
+            if sig == "bbox-composite-anchor-args-as-offsets" {
+                agg.deferred.get_or_insert(f);
+                bbox_defect_glyphs.push(gi);
+            } else {
+                return Err(f);
             }
         }
     }
@@ -1521,7 +1657,10 @@ fn check_instance(b: &Model, src: &ParsedFont, src_fields: &[([u8; 4], i32)], ou
                 // consequence of the attributed bbox defect: lsb = (wrong xMin) - pp1
                 continue;
             }
-            if adv_o != g.advance || lsb_o != g.lsb {
+            // (the header box of a composite with transforms is a rounding of fractional
+            // extremes: its xMin, and with it the side bearing, may be one unit off)
+            let lsb_tol = if transformed_composites.contains(&gi) { 1 } else { 0 };
+            if adv_o != g.advance || (lsb_o as i32 - g.lsb as i32).abs() > lsb_tol {
                 return Err(fail("default-metrics", ctx(&format!("default instance has advance {} lsb {}", adv_o, lsb_o))));
             }
             continue;
@@ -1679,15 +1818,74 @@ fn check_instance(b: &Model, src: &ParsedFont, src_fields: &[([u8; 4], i32)], ou
     Ok(())
 }
 
-/// no transforms anywhere below this glyph (so that composing it is exact integer arithmetic)
-fn composite_is_plain(glyphs: &[crate::refmodel::varmodel::OutGlyph], gid: usize, depth: usize) -> bool {
+/// Slack for composing points through 2.14 transforms (products of values below 2¹⁵ with
+/// multiples of 2⁻¹⁴, a few levels deep, in at least single precision).
+const COMPOSE_EPS: f64 = 1.0 / 64.0;
+
+/// Some(true): no transforms anywhere below this glyph (composing it is exact integer
+/// arithmetic); Some(false): there are transforms and all of them have a defined meaning;
+/// None: not checkable (a SCALED_COMPONENT_OFFSET component whose transform is not a positive
+/// diagonal scale — implementations disagree about what the flag means there —, nesting beyond
+/// 8, a reference out of range).
+fn composite_class(glyphs: &[crate::refmodel::varmodel::OutGlyph], gid: usize, depth: usize) -> Option<bool> {
     if depth > 8 {
-        return false;
+        return None;
     }
-    match glyphs.get(gid).map(|g| &g.shape) {
-        Some(OutShape::Composite { components, .. }) => components.iter().all(|c| c.transform.is_empty() && composite_is_plain(glyphs, c.glyph as usize, depth + 1)),
-        Some(_) => true,
-        None => false,
+    match &glyphs.get(gid)?.shape {
+        OutShape::Composite { components, .. } => {
+            let mut plain = true;
+            for c in components {
+                if !c.transform.is_empty() {
+                    plain = false;
+                    if c.xy && c.flags & 0x1800 == 0x0800 {
+                        let m = matrix_of(&c.transform);
+                        if !(m.0 > 0.0 && m.3 > 0.0 && m.1 == 0.0 && m.2 == 0.0) {
+                            return None;
+                        }
+                    }
+                }
+                plain &= composite_class(glyphs, c.glyph as usize, depth + 1)?;
+            }
+            Some(plain)
+        }
+        _ => Some(true),
+    }
+}
+
+/// Defect models for the box of a composite built from child *boxes* (attribution only). The
+/// result is a point set whose extremes are the modelled box. `empty_as_origin`: a glyph without
+/// contours contributes the point (0, 0); `transform_box`: a component's transform is applied to
+/// the corners of the child's box instead of the child's points; `anchors_as_offsets`: point-number
+/// arguments are used as x/y offsets. With all off this is the composition of the specification
+/// (None if there are point-matched components).
+fn defect_box(glyphs: &[crate::refmodel::varmodel::OutGlyph], gid: usize, depth: usize, empty_as_origin: bool, transform_box: bool, anchors_as_offsets: bool) -> Option<Vec<(f64, f64)>> {
+    if depth > 8 {
+        return None;
+    }
+    match &glyphs.get(gid)?.shape {
+        OutShape::Empty => Some(if empty_as_origin { vec![(0.0, 0.0)] } else { Vec::new() }),
+        OutShape::Simple { points, .. } => Some(points.iter().map(|p| (p.0 as f64, p.1 as f64)).collect()),
+        OutShape::Composite { components, .. } => {
+            let mut acc = Vec::new();
+            for c in components {
+                if !c.xy && !anchors_as_offsets {
+                    return None;
+                }
+                let mut child = defect_box(glyphs, c.glyph as usize, depth + 1, empty_as_origin, transform_box, anchors_as_offsets)?;
+                if transform_box {
+                    if let Some(r) = bbox_of(&child) {
+                        child = vec![(r.0, r.1), (r.2, r.1), (r.0, r.3), (r.2, r.3)];
+                    }
+                }
+                let m = matrix_of(&c.transform);
+                let off = if c.xy && !c.transform.is_empty() && c.flags & 0x1800 == 0x0800 { (m.0 * c.arg1 as f64, m.3 * c.arg2 as f64) } else { (c.arg1 as f64, c.arg2 as f64) };
+                acc.extend(child.iter().map(|p| {
+                    let q = apply_matrix(m, *p);
+                    (q.0 + off.0, q.1 + off.1)
+                }));
+            }
+            Some(acc)
+        }
     }
 }
 
@@ -1711,6 +1909,10 @@ struct Agg {
     /// a failure attributed to a known finding by its defect model: reported only if nothing
     /// else fails in the case, so that the search continues behind the finding
     deferred: Option<Fail>,
+    /// composite header boxes compared with the composed output points
+    composite_box_checked_plain: u32,
+    composite_box_checked_transformed: u32,
+    composite_box_unchecked: u32,
     // extension section
     vert_checked: u32,
     vert_off_default_nonzero: u32,
@@ -1736,7 +1938,7 @@ pub fn check_case(case: &Case, rec: &mut Rec) -> CaseResult {
     match check_case_built(case, &b, rec) {
         // a case whose variation data contains a region the specification calls invalid (and
         // tells implementations to ignore, axis scalar 1) gets its own signature
-        Err(f) if has_invalid && f.sig != "C12:bbox-composite-anchor-args-as-offsets" => {
+        Err(f) if has_invalid && !f.sig.starts_with("C12:bbox-composite-") => {
             Err(Fail::new("C12:invalid-region-axis-not-ignored", format!("[font has invalid region axes: {:?}] {}: {}", b.all_regions.iter().filter(|r| r.iter().any(|a| axis_region_invalid(*a))).collect::<Vec<_>>(), f.sig, f.msg)))
         }
         r => {
@@ -1755,6 +1957,20 @@ fn check_case_built(case: &Case, b: &Built, rec: &mut Rec) -> CaseResult {
     let fd = ReadScope::new(&b.font).read::<FontData<'_>>().map_err(|e| fail("source-not-loadable", format!("{:?}", e)))?;
     let prov = fd.table_provider(0).map_err(|e| fail("source-not-loadable", format!("{:?}", e)))?;
     let mut agg = Agg::default();
+    {
+        // composite classes (recorded before instancing, so that they count for every case)
+        let gl = &b.model.glyphs;
+        let comps = || gl.iter().flat_map(|g| g.comps.iter());
+        rec.class_if(comps().any(|c| gl.get(c.glyph as usize).map_or(false, |t| t.kind == Kind::Empty)), "composite-empty-component");
+        rec.class_if(gl.iter().any(|g| g.comps.first().map_or(false, |c| gl.get(c.glyph as usize).map_or(false, |t| t.kind == Kind::Empty))), "composite-empty-component-first");
+        rec.class_if(comps().any(|c| c.transform.len() == 1), "composite-transform:scale");
+        rec.class_if(comps().any(|c| c.transform.len() == 2), "composite-transform:xy-scale");
+        rec.class_if(comps().any(|c| c.transform.len() == 4), "composite-transform:2x2");
+        rec.class_if(comps().any(|c| c.transform.len() == 4 && (c.transform[1] != 0 || c.transform[2] != 0)), "composite-transform:2x2-off-diagonal");
+        rec.class_if(comps().any(|c| c.transform.iter().any(|w| *w < 0)), "composite-transform:negative-term");
+        rec.class_if(comps().any(|c| c.scaled_offset && matches!(c.args, CompArgs::Offset(x, y) if x != 0 || y != 0) && c.transform.iter().any(|w| *w != 16384)), "composite-scaled-component-offset");
+        rec.class_if(gl.iter().any(|g| g.comps.iter().any(|c| !c.transform.is_empty()) && !g.tuples.is_empty()), "composite-transform-with-deltas");
+    }
     let users = users_of(case, b);
     let mut locs: Vec<Vec<i16>> = Vec::new();
     for (ui, user) in users.iter().enumerate() {
@@ -1842,6 +2058,9 @@ fn check_case_built(case: &Case, b: &Built, rec: &mut Rec) -> CaseResult {
     rec.class_if(agg.mvar_checked > 0, "MVAR-field-checked");
     rec.class_if(agg.cvt_checked, "cvar");
     rec.class_if(agg.skipped_negative_advance > 0, "skipped:advance<1");
+    rec.class_if(agg.composite_box_checked_plain > 0, "composite-box-checked:exact");
+    rec.class_if(agg.composite_box_checked_transformed > 0, "composite-box-checked:transformed(±1)");
+    rec.class_if(agg.composite_box_unchecked > 0, "skipped:composite-box-ambiguous-scaled-offset");
     rec.class_if(b.num_h_metrics < b.model.glyphs.len() as u16, "hmtx-short-tail");
     rec.class(&format!("metric-mode:{}", b.metric_mode));
     rec.class_if(agg.tail_equal, "instance-tail-equal-advances");
@@ -2873,6 +3092,8 @@ fn fixture_model(bytes: &[u8]) -> Result<(Model, ParsedFont, Vec<AxisModel>, Vec
                         args: if c.xy { CompArgs::Offset(c.arg1 as i16, c.arg2 as i16) } else { CompArgs::Points(c.arg1 as u16, c.arg2 as u16) },
                         force_words: false,
                         round_to_grid: c.flags & 0x0004 != 0,
+                        transform: c.transform.clone(),
+                        scaled_offset: c.flags & 0x0800 != 0,
                     });
                     m.transforms.push(c.transform.clone());
                 }
@@ -3607,7 +3828,7 @@ impl Property for C12 {
         "C12"
     }
     fn rule(&self) -> String {
-        "proptest generates a variation model (1-3 axes with optional avar; 1-5 glyphs: simple with coincident coordinates, big 70-300 point, composite with xy offsets / anchor points, empty; 0-4 tuple variations per glyph with implied or intermediate regions, all / private / shared point sets incl. phantom points, byte and word deltas; hmtx; optional HVAR built to agree with the phantom deltas, direct or via DeltaSetIndexMaps of 1-4 byte entries; optional MVAR); \
+        "proptest generates a variation model (1-3 axes with optional avar; 1-5 glyphs: simple with coincident coordinates, big 70-300 point, composite with xy offsets / anchor points, components that refer to glyphs without contours, optional 2.14 component transforms in quarters (scale, x/y scale, 2x2 with shear / rotation / reflection terms) and SCALED_COMPONENT_OFFSET on positive diagonal scales, empty; 0-4 tuple variations per glyph with implied or intermediate regions, all / private / shared point sets incl. phantom points, byte and word deltas; hmtx; optional HVAR built to agree with the phantom deltas, direct or via DeltaSetIndexMaps of 1-4 byte entries; optional MVAR); \
          my own gvar/HVAR/MVAR/fvar/avar/glyf encoders serialise it with free encoding choices (point/delta run splits and widths, count width, shared/embedded peaks, shared point numbers, short/long offsets, padding); \
          variations::instance is called at the default and five further user tuples (region start/peak/end pre-images ±raw units, min, max, inside, outside); the output is read by independent glyf/hmtx/OS2/hhea/post readers and compared with an f64 evaluation of the model (region scalars, explicit deltas, IUP per contour) at the returned normalised tuple, tolerance 1 unit (+1/16 for 16-fractional-bit arithmetic); exact equality at the default location; no *var tables; Font::is_variable() false. \
          Section model-ext: the same model and checks on fonts with up to 4 axes that also carry vhea/vmtx (optional VVAR agreeing with the gvar deltas of phantom points 3/4; advance heights and top side bearings against the reference), an MVAR over every registered value tag plus unknown ones through 1-4 ItemVariationData subtables (LONG_WORDS, extra word columns, unreferenced rows, column subsets; vhea and gasp targets included), OS/2 versions 0 (68 and 78 bytes) to 5, STAT 1.0-1.2 with axis value formats 1-4 or no STAT, named instances (each instanced exactly), a name table with a free choice of records, longer avar maps, USE_MY_METRICS, more anchored components, glyphs beyond 255 points, and corner locations (axes at min/default/max, a region's peaks / starts / ends on all axes at once). \
@@ -3622,6 +3843,8 @@ impl Property for C12 {
             "HVAR advance deltas are generated equal to the gvar phantom point deltas, so either source of the advance is acceptable; with an HVAR lsb map either HVAR's lsb or xMin − pp1 is accepted".into(),
             "lsb of an instanced glyph is compared through phantom point 1 (xMin_out − lsb_out vs. pp1 + Σ scalar·delta) and, for simple glyphs, against the reference outline's xMin".into(),
             "advances whose reference value is < 1 are not asserted (allsorts clamps at 0)".into(),
+            "the header box of an instanced composite is the box of its composed output points (a glyph without contours contributes no point): exact without transforms; with 2.14 component transforms each edge within 1 unit (+1/64), and the default instance's lsb of such a composite within 1 unit of the source's (the source header box is the rounded box of the composed points)".into(),
+            "SCALED_COMPONENT_OFFSET is generated only on positive diagonal scales (offset' = (xscale·dx, yscale·dy) in every reading); composites with that flag on any other transform (fixtures) are not box-checked".into(),
         ]
     }
     fn run(&self, ctx: &mut Ctx) {
@@ -3640,4 +3863,543 @@ impl Property for C12 {
         let n = ctx.cases(4_000, 120_000);
         ctx.section("model-ext", n, ext_case_strategy(), |c, rec| check_ext_case(c, rec));
     }
+}
+
+// ------------------------------------------------------------------------------------ libFuzzer decoder
+//
+// `case_from_bytes` maps fuzz bytes onto the `Case` domain of `case_strategy()` (section `model`).
+// Every value it produces is one the proptest strategy can produce: the same ranges, the same fixed
+// collection sizes (3 axis entries per region, 22 + 4 mask / delta entries per tuple, 5 × 3 coordinate
+// specs, 6 × 3 MVAR deltas), the same post-processing of intermediate / invalid axis regions (the
+// closures of `axis_reg()` are repeated literally). `domain_violation` re-checks that on every decoded
+// case. 32-bit selectors / seeds (any u32 in the strategy) are read from two bytes and spread over the
+// word (the first byte lands in the top bits, which `pick` uses, the second in the low bits); long
+// fixed-size lists are length-prefixed and filled cyclically, so that short tapes decode to full cases.
+// `Unstructured` yields the lower bound / zero / false once the input is exhausted and collections stop
+// at their minimum size then. Layout: fixed-size header (flags, coordinate specs, metric structure),
+// axes, HVAR / MVAR / cvar, glyph list last.
+
+use arbitrary::Unstructured;
+
+type UResult<T> = arbitrary::Result<T>;
+
+fn fz_u8(u: &mut Unstructured<'_>) -> UResult<u8> {
+    u.arbitrary::<u8>()
+}
+
+/// any u32 (selector or seed): two bytes, the first in the top byte, the second in the low bytes
+fn fz_r32(u: &mut Unstructured<'_>) -> UResult<u32> {
+    let a = fz_u8(u)? as u32;
+    let b = fz_u8(u)? as u32;
+    Ok((a << 24) | (b << 16) | (a << 8) | b)
+}
+
+/// `mag()`: 1..=16384, biased to the round values
+fn fz_mag(u: &mut Unstructured<'_>) -> UResult<i16> {
+    let b = fz_u8(u)?;
+    Ok(match b & 7 {
+        0..=3 => [16384i16, 8192, 4096, 12288][((b >> 3) & 3) as usize],
+        6 => [1i16, 2, 16383][((b >> 3) % 3) as usize],
+        _ => u.int_in_range(1i16..=16384)?,
+    })
+}
+
+/// `axis_reg()`: the closures of the strategy, literally
+fn fz_axis_reg(u: &mut Unstructured<'_>) -> UResult<AxisRegSpec> {
+    let h = fz_u8(u)?;
+    let neg = h & 16 != 0;
+    Ok(match (h & 15) % 12 {
+        0..=2 => AxisRegSpec::Zero(neg),
+        3..=7 => {
+            let m = fz_mag(u)?;
+            AxisRegSpec::Peak(if neg { -m } else { m })
+        }
+        8..=10 => {
+            let degen = (h >> 5) % 6;
+            let a = fz_mag(u)?;
+            let b = fz_mag(u)?;
+            // c: 0 (weight 1) or a magnitude (weight 3)
+            let c = if (h >> 5) & 3 == 3 { 0 } else { fz_mag(u)? };
+            let mut v = [a, b, c];
+            v.sort();
+            let (mut s, mut p, mut e) = (v[0], v[1], v[2]);
+            match degen {
+                0 => s = p,
+                1 => e = p,
+                _ => {}
+            }
+            if p == 0 {
+                p = 1;
+                s = s.min(p);
+                e = e.max(p);
+            }
+            if neg {
+                AxisRegSpec::Inter(-e, -p, -s)
+            } else {
+                AxisRegSpec::Inter(s, p, e)
+            }
+        }
+        _ => {
+            let kind = (h >> 5) % 3;
+            let a = u.int_in_range(1i16..=8192)?;
+            let b = u.int_in_range(1i16..=8192)?;
+            let c = u.int_in_range(1i16..=8192)?;
+            let sg = if neg { -1 } else { 1 };
+            match kind {
+                0 => AxisRegSpec::Invalid(sg * (a + b), sg * a, sg * (a + b + c)),
+                1 => AxisRegSpec::Invalid(sg * a, sg * (a + b), sg * (a + b - 1).max(0)),
+                _ => AxisRegSpec::Invalid(-a, sg * b.min(a.min(c)), c),
+            }
+        }
+    })
+}
+
+fn fz_region(u: &mut Unstructured<'_>) -> UResult<Vec<AxisRegSpec>> {
+    Ok(vec![fz_axis_reg(u)?, fz_axis_reg(u)?, fz_axis_reg(u)?])
+}
+
+/// `delta()`: union −600..=600; `class` is a nibble
+fn fz_delta(u: &mut Unstructured<'_>, class: u8) -> UResult<i16> {
+    Ok(match class & 15 {
+        0..=3 => 0,
+        4..=6 => *u.choose(&[10i16, -10, 50, -50, 100])?,
+        7..=10 => fz_u8(u)? as i8 as i16,
+        11..=13 => u.int_in_range(-600i16..=600)?,
+        _ => *u.choose(&[127i16, 128, -128, -129, 255, 256, -300])?,
+    })
+}
+
+fn fz_delta_pair(u: &mut Unstructured<'_>) -> UResult<(i16, i16)> {
+    let h = fz_u8(u)?;
+    Ok((fz_delta(u, h & 15)?, fz_delta(u, h >> 4)?))
+}
+
+/// `tuple_spec()`
+fn fz_tuple(u: &mut Unstructured<'_>) -> UResult<TupleSpec> {
+    let axes = fz_region(u)?;
+    let h = fz_u8(u)?;
+    let mode = match h & 3 {
+        0 => PointMode::All,
+        2 => PointMode::Shared,
+        _ => PointMode::Private,
+    };
+    let share_peak = h & 4 != 0;
+    let explicit_inter = (h >> 3) % 5 == 0;
+    // bits 0..22: point mask; 22..26: phantom mask; 26..30: which phantom deltas are drawn
+    let bits: u32 = u.arbitrary()?;
+    let mask: Vec<bool> = (0..22).map(|i| bits >> i & 1 != 0).collect();
+    let phantom_mask: Vec<bool> = (22..26).map(|i| bits >> i & 1 != 0).collect();
+    let mut phantom_deltas = Vec::with_capacity(4);
+    for i in 26..30 {
+        phantom_deltas.push(if bits >> i & 1 != 0 { fz_delta_pair(u)? } else { (0, 0) });
+    }
+    // 22 delta pairs: k explicit ones, repeated cyclically (k = 0: all zero)
+    let k = u.int_in_range(0usize..=22)?;
+    let mut explicit = Vec::with_capacity(k);
+    for _ in 0..k {
+        explicit.push(fz_delta_pair(u)?);
+    }
+    let deltas: Vec<(i16, i16)> = (0..22).map(|i| if k == 0 { (0, 0) } else { explicit[i % k] }).collect();
+    let seed = fz_r32(u)?;
+    Ok(TupleSpec { axes, mode, mask, phantom_mask, deltas, phantom_deltas, share_peak, explicit_inter, seed })
+}
+
+/// the `SharedSpec` of `glyph_spec()` / `shared_spec()`
+fn fz_shared(u: &mut Unstructured<'_>) -> UResult<SharedSpec> {
+    let bits: u32 = u.arbitrary()?;
+    Ok(SharedSpec {
+        all: (bits >> 26) % 5 == 0,
+        mask: (0..22).map(|i| bits >> i & 1 != 0).collect(),
+        phantom_mask: (22..26).map(|i| bits >> i & 1 != 0).collect(),
+    })
+}
+
+/// `coord_val()`: union −1000..=1499; `class` is two bits
+fn fz_coord_val(u: &mut Unstructured<'_>, class: u8) -> UResult<i16> {
+    Ok(match class & 3 {
+        0 | 1 => u.int_in_range(0i16..=10)? * 50,
+        2 => u.int_in_range(-100i16..=699)?,
+        _ => u.int_in_range(-1000i16..=1499)?,
+    })
+}
+
+/// `contour()`: 1..=6 points
+fn fz_contour(u: &mut Unstructured<'_>) -> UResult<Vec<Pt>> {
+    const LEN: [usize; 8] = [3, 4, 5, 6, 3, 4, 1, 2];
+    let n = LEN[(fz_u8(u)? & 7) as usize];
+    let mut pts = Vec::with_capacity(n);
+    for i in 0..n {
+        if i >= 1 && u.is_empty() {
+            break; // any length 1..=6 is in the domain
+        }
+        // head: bits 0-1 on-curve (3 of 4), bits 2-3 x class, bits 4-5 y class
+        let h = fz_u8(u)?;
+        let x = fz_coord_val(u, h >> 2)?;
+        let y = fz_coord_val(u, h >> 4)?;
+        pts.push((x, y, h & 3 != 0));
+    }
+    Ok(pts)
+}
+
+fn fz_comp_offset(u: &mut Unstructured<'_>, wide: bool) -> UResult<i16> {
+    if wide {
+        u.int_in_range(-1000i16..=999)
+    } else {
+        u.int_in_range(-100i16..=100)
+    }
+}
+
+/// `comp_spec()`
+fn fz_comp(u: &mut Unstructured<'_>) -> UResult<CompSpec> {
+    let h = fz_u8(u)?;
+    let target = fz_r32(u)?;
+    let dx = fz_comp_offset(u, h & 3 == 3)?;
+    let dy = fz_comp_offset(u, (h >> 2) & 3 == 3)?;
+    let anchor = if (h >> 6) == 3 { Some((fz_r32(u)?, fz_r32(u)?)) } else { None };
+    Ok(CompSpec { target, dx, dy, anchor, force_words: h & 16 != 0, round: h & 32 != 0, empty: false, transform: None, scaled_offset: false })
+}
+
+/// `shape_spec()`
+fn fz_shape(u: &mut Unstructured<'_>) -> UResult<ShapeSpec> {
+    let h = fz_u8(u)?;
+    Ok(match (h & 15) % 13 {
+        0 => ShapeSpec::Empty,
+        1..=8 => {
+            let n = 1 + ((h >> 4) % 3) as usize;
+            let mut cs = Vec::with_capacity(n);
+            for i in 0..n {
+                if i >= 1 && u.is_empty() {
+                    break; // 1..=3 contours
+                }
+                cs.push(fz_contour(u)?);
+            }
+            ShapeSpec::Simple(cs)
+        }
+        9 => ShapeSpec::Big { n: [70u16, 130, 200, 300][((h >> 4) & 3) as usize], contours: 1 + (h >> 6), seed: fz_r32(u)? },
+        _ => {
+            let n = 1 + ((h >> 4) % 3) as usize;
+            let mut cs = Vec::with_capacity(n);
+            for i in 0..n {
+                if i >= 1 && u.is_empty() {
+                    break; // 1..=3 components
+                }
+                cs.push(fz_comp(u)?);
+            }
+            ShapeSpec::Composite(cs)
+        }
+    })
+}
+
+/// `glyph_spec()`
+fn fz_glyph(u: &mut Unstructured<'_>) -> UResult<GlyphSpec> {
+    let shape = fz_shape(u)?;
+    let advance = u.int_in_range(200u16..=1199)?;
+    let h = fz_u8(u)?;
+    let pp1 = if h & 3 == 3 { u.int_in_range(-60i16..=59)? } else { 0 };
+    let data_gap = if (h >> 2) % 5 == 4 { 1 + ((h >> 5) & 3) } else { 0 };
+    // weighted 0.6
+    let shared = if fz_u8(u)? % 5 < 3 { Some(fz_shared(u)?) } else { None };
+    let n = u.int_in_range(0usize..=4)?;
+    let mut tuples = Vec::with_capacity(n);
+    for _ in 0..n {
+        if u.is_empty() {
+            break; // 0..=4 tuples
+        }
+        tuples.push(fz_tuple(u)?);
+    }
+    Ok(GlyphSpec { shape, advance, pp1, tuples, shared, data_gap })
+}
+
+/// `axis_spec()`
+fn fz_axis(u: &mut Unstructured<'_>) -> UResult<AxisSpec> {
+    let h = fz_u8(u)?;
+    let default_units = match h & 7 {
+        0..=2 => 0,
+        3..=5 => 400,
+        _ => u.int_in_range(-200i16..=899)?,
+    };
+    let wght = (h >> 3) & 3 == 0;
+    let n_avar = ((h >> 5) % 3) as usize;
+    let below = u.int_in_range(0u16..=599)?;
+    let above = u.int_in_range(0u16..=599)?;
+    let mut avar = Vec::with_capacity(n_avar);
+    for _ in 0..n_avar {
+        avar.push((u.int_in_range(1i16..=16383)?, u.int_in_range(0i16..=16384)?));
+    }
+    Ok(AxisSpec { default_units, below, above, avar, wght })
+}
+
+/// `hvar_spec()`
+fn fz_hvar(u: &mut Unstructured<'_>) -> UResult<HvarSpec> {
+    let a = fz_u8(u)?;
+    let b = fz_u8(u)?;
+    Ok(HvarSpec {
+        mapped: a & 1 != 0,
+        lsb_map: a & 6 == 6,
+        entry_size: 1 + ((a >> 3) & 3),
+        extra_inner_bits: (a >> 5) & 3,
+        format1: a >> 7 != 0,
+        subtables: 1 + (b & 3) % 3,
+        truncate: b & 4 != 0,
+        long_words: (b >> 3) & 7 == 7,
+        extra_words: (b >> 6) % 3,
+        seed: fz_r32(u)?,
+    })
+}
+
+/// `mvar_spec()`
+fn fz_mvar(u: &mut Unstructured<'_>) -> UResult<MvarSpec> {
+    let h = fz_u8(u)?;
+    let n_tags = 1 + ((h & 7) % 6) as usize;
+    let n_regions = 1 + ((h >> 3) % 3) as usize;
+    let subtables = 1 + ((h >> 5) & 1);
+    let long_words = h >> 6 == 3;
+    let g = fz_u8(u)?;
+    let record_extra = if g & 3 == 3 { 1 + (g >> 2) % 5 } else { 0 };
+    let mut tags = Vec::with_capacity(n_tags);
+    for i in 0..n_tags {
+        if i >= 1 && u.is_empty() {
+            break; // 1..=6 tags
+        }
+        tags.push(u.int_in_range(0u8..=MVAR_TAGS.len() as u8 - 1)?);
+    }
+    let mut regions = Vec::with_capacity(n_regions);
+    for i in 0..n_regions {
+        if i >= 1 && u.is_empty() {
+            break; // 1..=3 regions
+        }
+        regions.push(fz_region(u)?);
+    }
+    // 6 × 3 deltas: k explicit rows, repeated cyclically
+    let k = u.int_in_range(1usize..=6)?;
+    let mut rows: Vec<Vec<i16>> = Vec::with_capacity(k);
+    for _ in 0..k {
+        let mut row = Vec::with_capacity(3);
+        for _ in 0..3 {
+            let b = fz_u8(u)?;
+            row.push(if b == 255 { u.int_in_range(-300i16..=300)? } else { (b as i16 % 201) - 100 });
+        }
+        rows.push(row);
+    }
+    let deltas = (0..6).map(|i| rows[i % k].clone()).collect();
+    Ok(MvarSpec { tags, regions, deltas, record_extra, subtables, long_words })
+}
+
+/// `cvar_spec()`
+fn fz_cvar(u: &mut Unstructured<'_>) -> UResult<CvarSpec> {
+    let n_cvts = u.int_in_range(1u8..=59)?;
+    let seed = fz_r32(u)?;
+    let h = fz_u8(u)?;
+    let shared = if h & 1 != 0 { Some(fz_shared(u)?) } else { None };
+    let n = ((h >> 1) & 3) as usize;
+    let mut tuples = Vec::with_capacity(n);
+    for _ in 0..n {
+        if u.is_empty() {
+            break; // 0..=3 tuples
+        }
+        tuples.push(fz_tuple(u)?);
+    }
+    Ok(CvarSpec { n_cvts, seed, tuples, shared })
+}
+
+/// `coord_spec()`
+fn fz_coord(u: &mut Unstructured<'_>) -> UResult<CoordSpec> {
+    const KIND: [u8; 16] = [0, 1, 2, 3, 3, 3, 3, 4, 4, 5, 5, 5, 5, 6, 7, 7];
+    let h = fz_u8(u)?;
+    Ok(CoordSpec { kind: KIND[(h & 15) as usize], r: fz_r32(u)?, off: [-1i8, 1, 2, -3][((h >> 4) & 3) as usize] })
+}
+
+/// `metric_spec()`
+fn fz_metric(u: &mut Unstructured<'_>) -> UResult<MetricSpec> {
+    const MODE: [u8; 12] = [0, 0, 0, 0, 0, 0, 1, 2, 2, 3, 4, 4];
+    let h = fz_u8(u)?;
+    let mode = MODE[((h & 15) % 12) as usize];
+    let zero = h >> 6 == 3;
+    let k = fz_u8(u)?;
+    let d1 = u.int_in_range(-120i16..=120)?;
+    let d2 = u.int_in_range(-120i16..=120)?;
+    let region = fz_region(u)?;
+    Ok(MetricSpec { mode, k, zero, region, d1, d2 })
+}
+
+fn region_violation(r: &[AxisRegSpec]) -> Option<&'static str> {
+    if r.len() != 3 {
+        return Some("region without 3 axis entries");
+    }
+    for a in r {
+        let ok = match *a {
+            AxisRegSpec::Zero(_) => true,
+            AxisRegSpec::Peak(p) => p != 0 && (-16384..=16384).contains(&p),
+            AxisRegSpec::Inter(s, p, e) => {
+                let (s, p, e) = if p < 0 { (-e, -p, -s) } else { (s, p, e) };
+                0 <= s && s <= p && p <= e && e <= 16384 && p >= 1
+            }
+            AxisRegSpec::Invalid(s, p, e) => axis_region_invalid(AxisRegion { start: s, peak: p, end: e }) && [s, p, e].iter().all(|v| (-24576..=24576).contains(v)),
+        };
+        if !ok {
+            return Some("axis region outside axis_reg()");
+        }
+    }
+    None
+}
+
+fn tuple_violation(t: &TupleSpec) -> Option<&'static str> {
+    if let Some(w) = region_violation(&t.axes) {
+        return Some(w);
+    }
+    if t.mask.len() != 22 || t.phantom_mask.len() != 4 || t.deltas.len() != 22 || t.phantom_deltas.len() != 4 {
+        return Some("tuple list lengths");
+    }
+    if t.deltas.iter().chain(t.phantom_deltas.iter()).any(|d| d.0.abs() > 600 || d.1.abs() > 600) {
+        return Some("tuple delta range");
+    }
+    None
+}
+
+fn shared_violation(s: &SharedSpec) -> Option<&'static str> {
+    if s.mask.len() != 22 || s.phantom_mask.len() != 4 {
+        return Some("shared point list lengths");
+    }
+    None
+}
+
+/// Some(reason) if `c` is not a value of `case_strategy()`.
+fn domain_violation(c: &Case) -> Option<&'static str> {
+    if !(1..=3).contains(&c.axes.len()) {
+        return Some("axis count");
+    }
+    for a in &c.axes {
+        if !(-200..900).contains(&a.default_units) || a.below >= 600 || a.above >= 600 || a.avar.len() > 2 {
+            return Some("axis spec");
+        }
+        if a.avar.iter().any(|(f, t)| !(1..16384).contains(f) || !(0..=16384).contains(t)) {
+            return Some("avar knot");
+        }
+    }
+    if !(1..=5).contains(&c.glyphs.len()) {
+        return Some("glyph count");
+    }
+    for g in &c.glyphs {
+        if !(200..1200).contains(&g.advance) || !(-60..60).contains(&g.pp1) || g.tuples.len() > 4 || g.data_gap > 4 {
+            return Some("glyph spec");
+        }
+        match &g.shape {
+            ShapeSpec::Empty => {}
+            ShapeSpec::Simple(cs) => {
+                if !(1..=3).contains(&cs.len()) || cs.iter().any(|c| !(1..=6).contains(&c.len())) {
+                    return Some("contour counts");
+                }
+                if cs.iter().flatten().any(|p| !(-1000..1500).contains(&p.0) || !(-1000..1500).contains(&p.1)) {
+                    return Some("point coordinate");
+                }
+            }
+            ShapeSpec::Big { n, contours, .. } => {
+                if ![70u16, 130, 200, 300].contains(n) || !(1..=4).contains(contours) {
+                    return Some("big glyph");
+                }
+            }
+            ShapeSpec::Composite(cs) => {
+                if !(1..=3).contains(&cs.len()) || cs.iter().any(|c| !(-1000..1000).contains(&c.dx) || !(-1000..1000).contains(&c.dy)) {
+                    return Some("composite");
+                }
+            }
+        }
+        if let Some(w) = g.tuples.iter().find_map(tuple_violation) {
+            return Some(w);
+        }
+        if let Some(w) = g.shared.as_ref().and_then(shared_violation) {
+            return Some(w);
+        }
+    }
+    if let Some(h) = &c.hvar {
+        if !(1..=4).contains(&h.entry_size) || h.extra_inner_bits > 3 || !(1..=3).contains(&h.subtables) || h.extra_words > 2 {
+            return Some("hvar spec");
+        }
+    }
+    if let Some(m) = &c.mvar {
+        if !(1..=6).contains(&m.tags.len()) || m.tags.iter().any(|t| *t as usize >= MVAR_TAGS.len()) || !(1..=3).contains(&m.regions.len()) {
+            return Some("mvar tags / regions");
+        }
+        if let Some(w) = m.regions.iter().find_map(|r| region_violation(r)) {
+            return Some(w);
+        }
+        if m.deltas.len() != 6 || m.deltas.iter().any(|r| r.len() != 3 || r.iter().any(|d| d.abs() > 300)) {
+            return Some("mvar deltas");
+        }
+        if m.record_extra > 5 || !(1..=2).contains(&m.subtables) {
+            return Some("mvar spec");
+        }
+    }
+    if let Some(cv) = &c.cvar {
+        if !(1..60).contains(&cv.n_cvts) || cv.tuples.len() > 3 {
+            return Some("cvar spec");
+        }
+        if let Some(w) = cv.tuples.iter().find_map(tuple_violation) {
+            return Some(w);
+        }
+        if let Some(w) = cv.shared.as_ref().and_then(shared_violation) {
+            return Some(w);
+        }
+    }
+    if c.coords.len() != 5 || c.coords.iter().any(|cs| cs.len() != 3 || cs.iter().any(|s| s.kind > 7 || ![-1i8, 1, 2, -3].contains(&s.off))) {
+        return Some("coordinate specs");
+    }
+    if c.metric.mode > 4 || c.metric.d1.abs() > 120 || c.metric.d2.abs() > 120 {
+        return Some("metric spec");
+    }
+    if let Some(w) = region_violation(&c.metric.region) {
+        return Some(w);
+    }
+    if c.extra_shared_tuples > 2 {
+        return Some("extra_shared_tuples");
+    }
+    None
+}
+
+/// bytes → a `Case` of `case_strategy()` (section `model`); total: every input is a case.
+pub fn case_from_bytes(data: &[u8]) -> arbitrary::Result<Case> {
+    let mut u = Unstructured::new(data);
+    let u = &mut u;
+    // header: flags, counts
+    let f = fz_u8(u)?;
+    let long_gvar = f & 1 != 0;
+    let long_loca = f & 2 != 0;
+    let short_hmtx = f & 12 == 12;
+    let with_avar = (f >> 4) & 3 == 3;
+    let n_axes = 1 + ((f >> 6) % 3) as usize;
+    let g = fz_u8(u)?;
+    let n_glyphs = 1 + ((g & 7) % 5) as usize;
+    let extra_shared_tuples = (g >> 3) % 3;
+    // weighted 0.1 in the strategy
+    let invalid_regions = g >> 5 == 7;
+    let p = fz_u8(u)?;
+    let has_hvar = p & 1 != 0;
+    let has_mvar = (p >> 1) % 5 < 2;
+    let has_cvar = (p >> 4) & 3 == 3;
+    let enc_seed: u64 = u.arbitrary()?;
+    // the tested locations: 5 × 3 coordinate specs
+    let mut coords = Vec::with_capacity(5);
+    for _ in 0..5 {
+        coords.push(vec![fz_coord(u)?, fz_coord(u)?, fz_coord(u)?]);
+    }
+    let metric = fz_metric(u)?;
+    let mut axes = Vec::with_capacity(n_axes);
+    for _ in 0..n_axes {
+        axes.push(fz_axis(u)?);
+    }
+    let hvar = if has_hvar { Some(fz_hvar(u)?) } else { None };
+    let mvar = if has_mvar { Some(fz_mvar(u)?) } else { None };
+    let cvar = if has_cvar { Some(fz_cvar(u)?) } else { None };
+    let mut glyphs = Vec::with_capacity(n_glyphs);
+    for i in 0..n_glyphs {
+        if i >= 1 && u.is_empty() {
+            break; // 1..=5 glyphs
+        }
+        glyphs.push(fz_glyph(u)?);
+    }
+    let case = Case { axes, with_avar, glyphs, hvar, mvar, cvar, coords, long_gvar, long_loca, short_hmtx, metric, extra_shared_tuples, enc_seed, invalid_regions };
+    if let Some(what) = domain_violation(&case) {
+        panic!("C12 case_from_bytes left the domain of case_strategy: {}", what);
+    }
+    Ok(case)
 }
